@@ -31,6 +31,7 @@ fn script_weight(sc: &Scenario) -> u64 {
         ops.iter()
             .map(|o| match o {
                 WOp::Write { n, .. } => 10 + *n,
+                WOp::WriteImpatient { n, .. } => 12 + *n,
                 _ => 10,
             })
             .sum()
@@ -135,7 +136,7 @@ pub fn minimise(sc: &Scenario, budget_s: f64, pred: &dyn Fn(&Scenario) -> bool) 
             while !cx.out_of_budget() {
                 let mut cand = best.clone();
                 let changed = match &mut side_mut(&mut cand, r).w[oi] {
-                    WOp::Write { n, .. } if *n > 1 => {
+                    WOp::Write { n, .. } | WOp::WriteImpatient { n, .. } if *n > 1 => {
                         *n /= 2;
                         true
                     }
